@@ -1,4 +1,4 @@
-Require Import OPC.gen.GenKinds OPC.Uni OPC.Names OPC.Codec OPC.Types OPC.Endpoint OPC.EndpointThm OPC.Parse OPC.ParseThm.
+Require Import OPC.gen.GenKinds OPC.Uni OPC.Names OPC.Codec OPC.Types OPC.Endpoint OPC.EndpointThm OPC.Parse OPC.ParseThm OPC.Multipart OPC.MultipartThm.
 From Coq Require Import NArith ZArith List Bool. Import ListNotations. Open Scope N_scope.
 
 (* every query / header / cookie argument appears under exactly its wire name in exactly its location, with its encoded value *)
@@ -78,3 +78,21 @@ Theorem C03_body_plan_total : forall ct hs, exists p, body_plan ct hs = p /\ (p 
 Proof. exact body_plan_total. Qed.
 Theorem C03_body_plan_json : forall s, str_eqb s s_app_json = true -> body_plan (Some s) true = BBody BJson.
 Proof. exact body_plan_json. Qed.
+
+(* multipart bodies (to_multipart): unset parts are omitted, required parts are present, scalars are sent as the text of their
+   value, nested models / arrays as one JSON part holding exactly their to_dict encoding *)
+Theorem C03_mp_unset_omitted : forall T f k, mp_field T f k false PUnset = Some None.
+Proof. exact mp_unset_omitted. Qed.
+Theorem C03_mp_required_present : forall T f k v o, mp_field T f k true v = Some o -> o <> None.
+Proof. exact mp_required_present. Qed.
+Theorem C03_mp_scalar_text : forall T f k req v p,
+  match k with KAny | KNone | KBool | KInt | KFloat | KStr => True | _ => False end ->
+  mp_value T f k req v = Some p -> exists s, str_of v = Some s /\ p = MText s.
+Proof. exact mp_scalar_text. Qed.
+Theorem C03_mp_nested_is_json : forall T f k req v p,
+  match k with KList _ | KModel _ => True | _ => False end ->
+  mp_value T f k req v = Some p -> exists j, enc T f k v = Some j /\ p = MJson j.
+Proof. exact mp_nested_is_json. Qed.
+Print Assumptions C03_mp_nested_is_json.
+Theorem C03_mp_none_member_first_refuted : exists T f v, mp_value T f (KUnion [KNone; KStr]) true v = None /\ mp_value T f (KUnion [KStr; KNone]) true v <> None.
+Proof. exact mp_none_member_first_refuted. Qed.
